@@ -40,14 +40,15 @@ type node struct {
 type openSet struct {
 	items *list.List
 
-	// done contains a map of targets we've already processed.
-	done map[core.BuildLabel]struct{}
+	// done maps the targets we've already queued to the smallest depth we queued them at.
+	done map[core.BuildLabel]int
 }
 
-// Push implements pushing a node onto the queue of nodes to process, deduplicating nodes we've seen before.
+// Push implements pushing a node onto the queue of nodes to process, deduplicating nodes we've seen before
+// unless we now reach them at a smaller depth (zero-cost edges mean the first visit isn't always the shallowest).
 func (os *openSet) Push(n *node) {
-	if _, present := os.done[n.target.Label]; !present {
-		os.done[n.target.Label] = struct{}{}
+	if depth, present := os.done[n.target.Label]; !present || n.depth < depth {
+		os.done[n.target.Label] = n.depth
 		os.items.PushBack(n)
 	}
 }
@@ -99,7 +100,7 @@ func newRevdeps(graph *core.BuildGraph, hidden, followSubincludes, includeSubrep
 		followSubincludes: followSubincludes,
 		os: &openSet{
 			items: list.New(),
-			done:  map[core.BuildLabel]struct{}{},
+			done:  map[core.BuildLabel]int{},
 		},
 		hidden:   hidden,
 		maxDepth: maxDepth,
